@@ -8,6 +8,7 @@ package main
 
 import (
 	"fmt"
+	"hash/crc32"
 	"math/rand"
 	"time"
 
@@ -52,6 +53,11 @@ func genScenario(r *rand.Rand, key string, quick bool) *fullsync.Scenario {
 		// value chunking: values on both sides of the threshold
 		opt.MinValueBytes = sc.Chunk/2 + r.Intn(sc.Chunk*2)
 		opt.NumKeys = 1 + r.Intn(3)
+		if h := crc32.ChecksumIEEE([]byte(key)); h%3 == 0 {
+			// several split values spread over the replay workers
+			opt.NumKeys = 4 + int(h/3%5)
+			sc.Parallel = 4
+		}
 		if r.Intn(2) == 0 {
 			opt.Kinds = []rdbx.Kind{[]rdbx.Kind{rdbx.KindHash, rdbx.KindList, rdbx.KindSet, rdbx.KindZSet}[r.Intn(4)]}
 		}
